@@ -13,7 +13,8 @@ and proofs that use it stop compiling: never a guess, never a stale definition.
 
 Typed expression subset: names bound in the environment (floats `T N`, Python ints `Z`, bools,
 float lists, lists of (re, im) pairs), int and float constants, + - * / ** unary -, abs, float,
-value(x) (identity on numbers), max(a,b), math.sqrt, sys.float_info.epsilon, comparisons,
+value(x) (identity on numbers), max(a,b), math.sqrt, sys.float_info.epsilon, comparisons (also a < b < c),
+conditional expressions, the module's helper _clip_r,
 `lambda psum,x: ...` bound to a name and used in `reduce(name, seq, const)`,
 `math.fsum(<elt> for v in seq)` / `math.fsum(<elt> for a,b in izip(s1,s2))` / `math.fsum(seq)`,
 assignments, augmented +=, if/elif/else, raise, assert False, return.
@@ -108,11 +109,21 @@ class EC(object):
                 p, k, t = self.expr(e.args[0])
                 v = self.fresh('m')
                 return p + ['%s <- libm1 N F_sqrt %s' % (v, self.asT(k, t))], 'T', v
+            if f == '_clip_r' and len(e.args) == 1:
+                # the module's own helper, translated as g_clip_r (emitted before its users)
+                p, k, t = self.expr(e.args[0])
+                v = self.fresh('c')
+                return p + ['%s <- g_clip_r N %s' % (v, self.asT(k, t))], 'T', v
             if f == 'reduce' and len(e.args) == 3:
                 return self.reduce(e)
             if f == 'math.fsum' and len(e.args) == 1:
                 return self.fsum(e.args[0])
             raise Untranslatable('call %s' % f)
+        if isinstance(e, ast.IfExp):
+            c = self.test(e.test)
+            pa, ka, ta = self.expr(e.body); pb, kb, tb = self.expr(e.orelse)
+            if pa or pb: raise Untranslatable('effectful conditional expression')
+            return [], 'T', '(if %s then %s else %s)' % (c, self.asT(ka, ta), self.asT(kb, tb))
         raise Untranslatable('expression %s' % type(e).__name__)
 
     def bind_elem(self, name, kind_of_list):
@@ -181,6 +192,11 @@ class EC(object):
             k = self.env.get(t.id)
             if k and k[0] == 'B': return k[1]
             raise Untranslatable('test on %s' % t.id)
+        if isinstance(t, ast.Compare) and len(t.ops) == 2:
+            # a < b < c : b is evaluated once; it must be free of effects
+            first = ast.Compare(left=t.left, ops=[t.ops[0]], comparators=[t.comparators[0]])
+            second = ast.Compare(left=t.comparators[0], ops=[t.ops[1]], comparators=[t.comparators[1]])
+            return '(andb %s %s)' % (self.test(first), self.test(second))
         if isinstance(t, ast.Compare) and len(t.ops) == 1:
             pl, kl, tl = self.expr(t.left); pr, kr, tr = self.expr(t.comparators[0])
             if pl or pr: raise Untranslatable('effectful comparison operand')
@@ -300,6 +316,15 @@ def worklist(ta, tb):
     F = lambda n: (find_func(ta, n) or (_ for _ in ()).throw(Untranslatable('function %s missing' % n)))
     RT = 'res (T N)'
 
+    # ---- _clip_r (helper of the multi estimators): rounding error just outside [-1,1] removed
+    def th():
+        fn = F('_clip_r')
+        if [a.arg for a in fn.args.args] != ['r'] or fn.args.vararg or fn.args.kwarg or fn.args.defaults:
+            raise Untranslatable('_clip_r signature')
+        c = EC({'r': ('T', 'r')}, ret=lambda v, c: c.tuple_term([v]))
+        return c.block(strip_doc(fn.body), lambda c: (_ for _ in ()).throw(Untranslatable('falls off')))
+    add('g_clip_r', '(r : T N)', RT, th)
+
     # ---- type_b.mean : mu = sum(seq)/len(seq)
     def th():
         fn = find_func(tb, 'mean')
@@ -400,9 +425,20 @@ def worklist(ta, tb):
         return c
     def th():
         c = est_call('ucomplex')
-        if [U(a) for a in c.args] != ['mu', 'u[0]', 'u[1]', 'r', 'df', 'label']: raise Untranslatable('ucomplex arguments')
+        a = c.args
+        if len(a) != 6 or [U(x) for x in a[:3] + a[4:]] != ['mu', 'u[0]', 'u[1]', 'df', 'label']: raise Untranslatable('ucomplex arguments')
         return EC({'r': ('T', 'r')}).test(kw(c, 'independent'))
     add('g_est_cplx_indep', '(r : T N)', 'bool', th)
+    def th():
+        # the correlation handed to UncertainComplex._elementary: `<x> if <test> else None`  (None: no register is written)
+        a = est_call('ucomplex').args[3]
+        if not (isinstance(a, ast.IfExp) and isinstance(a.orelse, ast.Constant) and a.orelse.value is None):
+            raise Untranslatable('correlation argument of ucomplex is not `... if ... else None`: %s' % U(a))
+        c = EC({'r': ('T', 'r')})
+        p, k, t = c.expr(a.body)
+        if p: raise Untranslatable('effectful correlation argument')
+        return '(if %s then Some %s else None)' % (c.test(a.test), c.asT(k, t))
+    add('g_est_cplx_rarg', '(r : T N)', 'option (T N)', th)
     def th():
         c = est_call('ureal')
         if [U(a) for a in c.args] != ['mu', 'u', 'df', 'label']: raise Untranslatable('ureal arguments')
